@@ -69,9 +69,17 @@ def quiet(fn, *a, **kw):
         return fn(*a, **kw)
 
 
-def gen_system(rng, multi=False):
+def resid_of(mt, r):
+    """the residue number of the r-th residue of a molecule type (numbers may start again inside the molecule)"""
+    return next(a['resid'] for a in mt['atoms'] if a['res'] == r)
+
+
+def gen_system(rng, multi=False, restart=False):
     ntypes = rng.randint(1, 3)
-    moltypes = [systems.gen_moltype(rng, f'M{"ABC"[i]}', nres=rng.randint(1, 6), multi_atom=multi, shape='path') for i in range(ntypes)]
+    # also molecules whose residue numbering starts again inside the molecule (blocks numbered separately, then merged):
+    # a residue is named by (residue name, number), and numbers need not grow along the molecule
+    moltypes = [systems.gen_moltype(rng, f'M{"ABC"[i]}', nres=rng.randint(1, 6), multi_atom=multi, shape='path', restart=restart and rng.random() < 0.35)
+                for i in range(ntypes)]
     molecules = [(rng.choice(moltypes)['name'], rng.randint(1, 2)) for _ in range(rng.randint(2, 5))]
     return moltypes, molecules
 
@@ -146,7 +154,7 @@ def build_expected(moltypes, molecules, blocks):
     for idx, name in enumerate(inst):
         rows = []
         for r in range(by[name]['nres']):
-            resid, rn = r + 1, by[name]['resnames'][r]
+            resid, rn = resid_of(by[name], r), by[name]['resnames'][r]
             restr, rws = [], []
             for bname, lo, hi, ds in blocks:
                 if bname == name and lo <= idx < hi:
@@ -666,8 +674,18 @@ def run(ctx):
     exprs, keep = [], []
     with systems.Workdir() as wd:
         for _ in range(ctx.n(120, 1200)):
-            moltypes, molecules = gen_system(rng)
+            moltypes, molecules = gen_system(rng, restart=True)
             blocks = gen_build(rng, moltypes, molecules)
+            if len(keep) < 4:
+                # directed: two separately numbered blocks; the directive names the first residues of the SECOND block, which
+                # come after residues with higher numbers
+                mt = systems.gen_moltype(rng, 'MA', nres=rng.randint(4, 6), shape='path', restart=True)
+                while resid_of(mt, mt['nres'] - 1) == mt['nres'] or max(a['resid'] for a in mt['atoms'] if a['resname'] == 'RA') < 2:
+                    mt = systems.gen_moltype(rng, 'MA', nres=rng.randint(4, 6), shape='path', restart=True)
+                moltypes, molecules = [mt], [('MA', rng.randint(1, 2))]
+                blocks = [('MA', 0, 2, [(rng.random() < 0.3, 'RB', 1, 2, 1, 'sphere'), (False, 'RA', 1, 2, 2, 'cylinder')])]
+            if any(len({a['resid'] for a in mt['atoms']}) < mt['nres'] for mt in moltypes):
+                ctx.feature('build_file_on_molecules_with_restarting_residue_numbers')
             try:
                 impl = build_impl(wd, moltypes, molecules, blocks)
             except Exception as exc:  # noqa
@@ -688,7 +706,7 @@ def run(ctx):
             inst = [n for n, c in molecules for _ in range(c)]
             blocks_txt = '[' + '; '.join(f"({lit(n)}, {lo}%Z, {hi}%Z, [" + '; '.join(f"({lit(bool(rw))}, {lit(rn)}, {a}%Z, {b}%Z, {nid}%nat)" for rw, rn, a, b, nid, _ in ds) + "])"
                                          for n, lo, hi, ds in blocks) + ']'
-            mols_txt = '[' + '; '.join(f"({lit(n)}, [" + '; '.join(f"({r + 1}%Z, {lit(by[n]['resnames'][r])})" for r in range(by[n]['nres'])) + "])" for n in inst) + ']'
+            mols_txt = '[' + '; '.join(f"({lit(n)}, [" + '; '.join(f"({resid_of(by[n], r)}%Z, {lit(by[n]['resnames'][r])})" for r in range(by[n]['nres'])) + "])" for n in inst) + ']'
             exprs.append(f"build_case {blocks_txt} {mols_txt}")
             keep.append(impl)
         try:
